@@ -11,7 +11,8 @@ from pathlib import Path
 from harness import ukvlib
 from harness.ukvlib import hx, keys_token
 
-KEYS = ["a", "b", "k" * 255, "L" * 256, "", "z1", "z2", "z3"]
+# incl. non-ASCII keys: 127 x "é" = 254 bytes (accepted), 128 x "é" = 256 bytes in 128 characters (must be refused)
+KEYS = ["a", "b", "k" * 255, "L" * 256, "", "z1", "z2", "z3", "é" * 127, "é" * 128, "ü"]
 VALS = [b"", b"v", b"0123456789" * 7, b"\x00" * 200]
 BUFS = [-1, 0, 64, 1_000_000]
 
@@ -96,7 +97,7 @@ def line_of(op):
     if k == "begin":
         return f"begin {op[1]} {op[2]}"
     if k == "cput":
-        return f"cput {op[1]} {hx(op[2].encode())} {hx(op[3])}"
+        return f"cput {op[1]} {hx(op[2].encode())} {hx(op[3])} {len(op[2])}"
     if k == "cget":
         return f"cget {op[1]} {hx(op[2].encode())}"
     return f"{k} {op[1]}"
@@ -134,10 +135,11 @@ def gen_ops(rng, n):
             k = rng.weighted([("cput", 12), ("cget", 5), ("ckeys", 3), ("cflush", 1), ("end", 4)])
             if k == "cput":
                 key = rng.weighted([(KEYS[0], 3), (KEYS[1], 3), (KEYS[2], 1), (KEYS[3], 1), (KEYS[4], 1),
-                                    (KEYS[5], 2), (KEYS[6], 2), (KEYS[7], 2), ("r%d" % rng.below(30), 6)])
+                                    (KEYS[5], 2), (KEYS[6], 2), (KEYS[7], 2), (KEYS[8], 1), (KEYS[9], 1), (KEYS[10], 1),
+                                    ("r%d" % rng.below(30), 6)])
                 ops.append(("cput", c, key, rng.choice(VALS)))
             elif k == "cget":
-                ops.append(("cget", c, rng.choice(KEYS[:3] + KEYS[4:])))
+                ops.append(("cget", c, rng.choice(KEYS[:3] + KEYS[4:9] + KEYS[10:])))
             elif k == "end":
                 ops.append(("end", c))
                 insess = None
@@ -235,7 +237,8 @@ def run(ctx):
          ("begin", 0, "r"), ("cget", 0, "a"), ("end", 0)],
         # duplicate and oversize keys with a large buffer
         [("cnew", 0, 1_000_000, 0, 0, b""), ("begin", 0, "w"), ("cput", 0, "a", b"1"), ("cput", 0, "a", b"2"), ("cget", 0, "a"),
-         ("cput", 0, "L" * 256, b"x"), ("ckeys", 0), ("end", 0), ("begin", 0, "w"), ("cput", 0, "a", b"3"), ("cget", 0, "a"), ("end", 0)],
+         ("cput", 0, "L" * 256, b"x"), ("cput", 0, "é" * 128, b"y"), ("cput", 0, "é" * 127, b"z"), ("ckeys", 0), ("end", 0),
+         ("begin", 0, "w"), ("cput", 0, "a", b"3"), ("cget", 0, "a"), ("cget", 0, "é" * 127), ("end", 0)],
         # two long-lived collection objects alternate (stale cached handles)
         [("cnew", 0, 64, 0, 0, b""), ("cnew", 1, -1, 0, 0, b""), ("begin", 0, "w"), ("cput", 0, "a", b"1"), ("end", 0),
          ("begin", 1, "w"), ("cput", 1, "b", b"2"), ("cput", 1, "a", b"9"), ("end", 1), ("begin", 0, "w"), ("ckeys", 0), ("cput", 0, "b", b"7"),
